@@ -1,28 +1,44 @@
 (* C17 correspondence: the manager model, driven by the table generated from manager.go and
    by the observed engine results (oracle), must predict every observed manager call. *)
-From Coq Require Import List String Bool Arith.
+From Coq Require Import List String Bool Arith ZArith.
 Import ListNotations.
 From PT Require Export Gen.Gen_Manager Model.Manager Spec.C17_spec.
 Open Scope string_scope.
 
 Record case := { c_tables : list string; c_steps : list step }.
 
-Definition mks m t a k c nf me mr ee er p : step :=
+Definition mks m t a k c nf me mr ee er p g1 g2 ng : step :=
   {| st_method := m; st_table := t; st_args := a; st_known := k; st_calls := c; st_notfound := nf;
-     st_mgr_err := me; st_mgr_res := mr; st_eng_err := ee; st_eng_res := er; st_present := p |}.
+     st_mgr_err := me; st_mgr_res := mr; st_eng_err := ee; st_eng_res := er; st_present := p;
+     st_gen_pre := g1; st_gen_post := g2; st_new_gen := ng |}.
 
-(* engine oracle: state-free, returns what the real engine returned on this step *)
-Definition oracle (s : step) : unit -> string -> list string -> unit * (bool * string) :=
-  fun _ _ _ => (tt, (st_eng_err s, st_eng_res s)).
+(* engine oracle: an engine is identified by its generation number; a forwarded call returns
+   what the real engine returned on this step and leaves the generation alone *)
+Definition oracle (s : step) : nat -> string -> list string -> nat * (bool * string) :=
+  fun g _ _ => (g, (st_eng_err s, st_eng_res s)).
 
-Definition present (reg : registry unit) (id : string) : bool :=
-  match lookup unit reg id with Some _ => true | None => false end.
+Definition gen_of (reg : registry nat) (id : string) : Z :=
+  match lookup nat reg id with Some g => Z.of_nat g | None => (-1)%Z end.
 
-Fixpoint model_diff (i : nat) (reg : registry unit) (tr : list step) : option nat :=
+Fixpoint model_diff (i : nat) (reg : registry nat) (tr : list step) : option nat :=
   match tr with
   | [] => None
   | s :: t =>
-      let '(reg', r, calls) := mstep unit string (bool * string) fst (oracle s) manager_table reg
+      let pre_ok := Z.eqb (gen_of reg (st_table s)) (st_gen_pre s) in
+      if String.eqb (st_method s) "CreateTable" then
+        let reg' := mcreate nat create_stores reg (st_table s) (negb (st_mgr_err s)) (st_new_gen s) in
+        if pre_ok && Z.eqb (gen_of reg' (st_table s)) (st_gen_post s) && calls_eqb [] (st_calls s)
+        then model_diff (S i) reg' t else Some i
+      else if String.eqb (st_method s) "Reset" then
+        let reg' := mreset nat reset_clears reg in
+        if Z.eqb (gen_of reg' (st_table s)) (st_gen_post s) && calls_eqb [] (st_calls s)
+        then model_diff (S i) reg' t else Some i
+      else if String.eqb (st_method s) "GetTableEngine" then
+        if pre_ok && Z.eqb (gen_of reg (st_table s)) (st_gen_post s)
+           && Bool.eqb (st_notfound s) (Z.eqb (gen_of reg (st_table s)) (-1)) && calls_eqb [] (st_calls s)
+        then model_diff (S i) reg t else Some i
+      else
+      let '(reg', r, calls) := mstep nat string (bool * string) fst (oracle s) manager_table reg
                                      (st_method s) (st_table s) (st_args s) in
       let res_ok :=
         match r with
@@ -30,8 +46,7 @@ Fixpoint model_diff (i : nat) (reg : registry unit) (tr : list step) : option na
         | MRes _ (e, txt) => st_known s && Bool.eqb (st_mgr_err s) e && String.eqb (st_mgr_res s) txt
         | MNoMethod _ => false
         end in
-      if res_ok && calls_eqb calls (st_calls s) && Bool.eqb (present reg' (st_table s)) (st_present s)
-         && Bool.eqb (present reg (st_table s)) (st_known s)
+      if res_ok && pre_ok && calls_eqb calls (st_calls s) && Z.eqb (gen_of reg' (st_table s)) (st_gen_post s)
       then model_diff (S i) reg' t else Some i
   end.
 
@@ -42,7 +57,7 @@ Fixpoint mon_fail (i : nat) (tr : list step) : option nat :=
   end.
 
 Definition check_case (c : case) : list (nat * nat) :=
-  (match model_diff 0 (map (fun t => (t, tt)) (c_tables c)) (c_steps c) with Some i => [(2, i)] | None => [] end) ++
+  (match model_diff 0 (combine (c_tables c) (seq 1 (List.length (c_tables c)))) (c_steps c) with Some i => [(2, i)] | None => [] end) ++
   (match mon_fail 0 (c_steps c) with Some i => [(3, i)] | None => [] end).
 
 Fixpoint check_all (i : nat) (cs : list case) : list (nat * (nat * nat)) :=
